@@ -192,7 +192,13 @@ async def _resolve(loop, case, out: Outcome):
 
     await one_round("initial graph", "job0")
     for i, ov in enumerate(case["overrides"]):
-        DEP[ov["node"]].override(ns[f"ov{i}"])
+        try:
+            DEP[ov["node"]].override(ns[f"ov{i}"])
+        except Exception as e:  # noqa: BLE001
+            # (the new provider only depends on earlier nodes: the graph stays acyclic and every declaration in it is a supported one)
+            out.v("override-refused", f"override {i + 1} of n{ov['node']} with a supported provider (dependencies {ov['deps']}, acyclic) "
+                  f"raised {type(e).__name__}: {e}")
+            return
         cur[ov["node"]] = dict(id=ov["node"], deps=ov["deps"], msg=ov["msg"], tag=ov["tag"], fails=False)
         await one_round(f"after override {i + 1} of n{ov['node']}", f"job{i + 1}")
 
